@@ -262,7 +262,8 @@ Lemma sort_coords_sorted_id l : adj_lt l -> sort_coords l = l.
 Proof.
   induction l as [|x l IH]; intro H; [reflexivity|]. cbn [sort_coords fold_right].
   change (fold_right coord_insert [] l) with (sort_coords l).
-  destruct l as [|y t]; [reflexivity|]. destruct H as [Hxy Ht]. rewrite (IH Ht). cbn [coord_insert]. rewrite Hxy. reflexivity.
+  destruct l as [|y t]; [reflexivity|]. destruct H as [Hxy Ht]. rewrite (IH Ht). cbn [coord_insert].
+  rewrite (coord_ltb_asym _ _ Hxy). reflexivity.
 Qed.
 Lemma sub_cells_sorted fields c a (r : nat) : forall (n s : nat) wn cs',
   (0 < r)%nat -> length wn = n ->
@@ -493,7 +494,7 @@ End Roundtrip.
 Lemma coord_insert_perm x l : Permutation (coord_insert x l) (x :: l).
 Proof.
   induction l as [|y t IH]; cbn [coord_insert]; [reflexivity|].
-  destruct (coord_ltb x y); [reflexivity|]. rewrite IH. apply perm_swap.
+  destruct (coord_ltb y x); [|reflexivity]. rewrite IH. apply perm_swap.
 Qed.
 Lemma sort_coords_perm l : Permutation (sort_coords l) l.
 Proof.
